@@ -678,6 +678,15 @@ def instantiate_fn(fs, item, em):
             else:
                 edits.append((b1.start, hdr_end, header + ctext + "{ "))
                 edits.append((toks[c["body_end"]].end, toks[c["body_end"]].end, " }"))
+            c["_annotated"] = True
+        # closures without a contract: a bare `_` parameter still has to get a name (Verus rejects `_` closure params)
+        for c in cls:
+            if c.get("_annotated"):
+                continue
+            for i, (a, b) in enumerate(c["params"], 1):
+                if b - a == 1 and toks[a].text == "_":
+                    edits.append((toks[a].start, toks[a].end, "_p%d" % i))
+                    log.append("closure param %d: `_` renamed to _p%d (Verus rejects `_` closure params)" % (i, i))
         # ---- pre-pass: which hints can be placed; ghost names declared by hints that cannot are "lost", and every hint,
         # loop-invariant clause or subst text that mentions a lost ghost name is dropped with it (degraded), so that a
         # source change that removes one anchor does not turn the remaining hints into compile errors
@@ -1134,6 +1143,43 @@ def instantiate_fn(fs, item, em):
                                 continue
                             edits.append((t.start, t.end, new_n)); cnt_r += 1
                     log.append("R-rename-local: local `%s` renamed to `%s` (%d occurrences) (%s)" % (old_n, new_n, cnt_r, why))
+            elif rule == "let_chain":
+                # rule let_chain :: "<text at which the chain starts>" :: why
+                # R-let-chain (A-normal form): a method chain `E.m1(a).m2(b).m3(c)` becomes
+                # `{ let __c1 = E; let __c2 = __c1.m1(a); let __c3 = __c2.m2(b); __c3.m3(c) }` -- same evaluation order
+                # (receiver, then arguments, left to right); only names the intermediate values so that hints can
+                # mention them.
+                anchor = pos[0].strip('"')
+                a_idx = text.find(anchor)
+                k0 = next((q for q in range(lo, hi) if toks[q].start == a_idx), None) if a_idx >= 0 else None
+                if k0 is None:
+                    degraded.append("let_chain rule: anchor %r not found" % anchor)
+                else:
+                    # head: path/ident tokens up to and including the first call's closing paren
+                    q = k0
+                    while q < hi and toks[q].text != "(":
+                        q += 1
+                    q = match_close(toks, q)
+                    cuts = [q]            # token index of the `)` ending each link
+                    while q + 3 < hi and toks[q + 1].text == "." and toks[q + 2].kind == "ident" and toks[q + 3].text == "(":
+                        q = match_close(toks, q + 3)
+                        cuts.append(q)
+                    if len(cuts) < 2:
+                        degraded.append("let_chain rule: no method chain at %r" % anchor)
+                    else:
+                        parts = []
+                        prev = toks[k0].start
+                        for ci, c in enumerate(cuts):
+                            parts.append(text[prev:toks[c].end])
+                            prev = toks[c].end
+                        out_t = "{ let __c1 = %s; " % parts[0]
+                        for ci in range(1, len(parts) - 1):
+                            out_t += "let __c%d = __c%d%s; " % (ci + 1, ci, parts[ci].strip())
+                        if kws.get("post"):
+                            out_t += kws["post"] + " "
+                        out_t += "__c%d%s }" % (len(parts) - 1, parts[-1].strip())
+                        edits.append((toks[k0].start, toks[cuts[-1]].end, out_t))
+                        log.append("R-let-chain: method chain of %d calls at %r put in A-normal form (intermediate values named __c1..__c%d)" % (len(parts), anchor[:40], len(parts) - 1))
             elif rule == "subst_all":
                 # like subst, every occurrence (at least one):  rule subst_all :: "<from>" :: "<to>" :: why
                 frm, to = pos[0].strip('"'), pos[1].strip('"')
